@@ -264,6 +264,23 @@ func genFloats(c *genCtx) error {
 				}
 			}
 		}
+		// the deciding digit exactly at, just before and just after the capacities of the
+		// multiprecision decimal (800 digits) and of the fast paths
+		if len(digits) < 700 && (c.thorough() || rp(3) == 0) {
+			for _, total := range []int{19, 20, 767, 768, 769, 799, 800, 801, 802, 900} {
+				if total <= len(digits)+1 {
+					continue
+				}
+				z := strings.Repeat("0", total-len(digits)-1)
+				for _, last := range []string{"1", "9"} {
+					d := digits + z + last
+					withFollow(fmt.Sprintf("%sE%d", d, e10-(len(d)-len(digits))))
+				}
+				// just below halfway: decrement, then nines
+				d := bumpLast(digits, -1) + strings.Repeat("9", total-len(digits))
+				withFollow(fmt.Sprintf("%sE%d", d, e10-(len(d)-len(digits))))
+			}
+		}
 		// the float itself (shortest and exact spellings)
 		withFollow(strconv.FormatFloat(x, 'g', -1, 64))
 		dx, ex := decimalOf(mant, e2)
@@ -287,6 +304,24 @@ func genFloats(c *genCtx) error {
 		"2.2250738585072011e-308", "2.2250738585072012e-308", "2.2250738585072014e-308", "2.225073858507201136057409796709131975934819546351645648023426109724822222021076945516529523908135087914149158913039621106870086438694594645527657207407820621743379988141063267329253552286881372149012981122451451889849057222307285255133155755015914397476397983411801999323962548289017107081850690630666655994938275772572015763062690663332647565300009245888316433037779791869612049497390377829704905051080609940730262937128958950003583799967207254304360284078895771796150945516748243471030702609144621572289880258182545180325707018860872113128079512233426288368622321503775666622503982534335974568884423900265498198385487948292206894721689831099698365846814022854243330660339850886445804001034933970427567186443383770486037861622771738545623065874679014086723327636718751e-308"} {
 		withFollow(s)
 	}
+	// zeros of every spelling and length, both signs (the sign must survive every conversion path)
+	for k := 0; k <= 40; k++ {
+		z := strings.Repeat("0", k)
+		for _, s := range []string{"0." + z, "0." + z + "0e5", "0." + z + "e-7", "0e" + z + "1", "0E-" + z + "0", "0." + z + "0E+400"} {
+			withFollow(s)
+			withFollow("-" + s)
+		}
+	}
+	for _, k := range []int{767, 799, 800, 801, 900, 1200} {
+		withFollow("-0." + strings.Repeat("0", k))
+		withFollow("0." + strings.Repeat("0", k) + "1")
+		withFollow("-0." + strings.Repeat("0", k) + "1e" + fmt.Sprint(k))
+	}
+	digitRunInputs(c.thorough(), func(d []byte) {
+		if len(d) > 0 && d[0] != '[' && d[0] != '{' && (c.thorough() || rp(3) == 0) {
+			runFloat(c.sw, &j, d, c.st)
+		}
+	})
 	// 3. mantissa lengths x exponent windows
 	lens := []int{1, 2, 5, 9, 15, 16, 17, 18, 19, 20, 21, 25, 40, 100, 400, 766, 767, 768, 769, 799, 800, 801, 820, 1100}
 	exps := []int{-400, -348, -347, -330, -325, -324, -323, -310, -308, -307, -100, -38, -37, -23, -22, -21, -5, -1, 0, 1, 5, 15, 16, 21, 22, 23,
